@@ -201,3 +201,27 @@ Fixpoint cxx_graph_keys (t : gtree) : nid * list nid :=
   end.
 Fixpoint g_nodes (t : gtree) : nat :=
   match t with GLeaf => 1 | GNode _ args => S (fold_right (fun a s => g_nodes a + s) 0 args) end%nat.
+
+(* ---------- compute graph of a view DAG (shared sub-expressions, named leaves) ----------
+   With leaves named by view::alias(a, id) and sub-views held in variables that are used several
+   times, the views form a DAG.  A node is identified by WHAT it computes: [nid] = the term itself
+   (leaf id / operation name + operand nodes), i.e. an ideal, injective id.  The property's graph:
+   one node per distinct leaf and per distinct operation, one edge per (distinct operand node,
+   operation) pair — no edge twice, however many paths reach a shared node. *)
+Fixpoint subterms (t : nid) : list nid :=
+  match t with LeafId _ => [t] | OpId _ args => flat_map subterms args ++ [t] end.
+Fixpoint all_edges (t : nid) : list (nid * nid) :=
+  match t with LeafId _ => [] | OpId _ args => flat_map all_edges args ++ map (fun a => (a, t)) args end.
+
+Fixpoint dedup {A} (eqb : A -> A -> bool) (l : list A) : list A :=      (* keeps first occurrences *)
+  match l with [] => [] | x :: t => let r := dedup eqb t in
+    x :: filter (fun y => negb (eqb x y)) r end.
+Definition edge_eqb (e f : nid * nid) : bool := nid_eqb (fst e) (fst f) && nid_eqb (snd e) (snd f).
+
+(* get_compute_graph on a DAG: sub-graphs are merged key by key (ct_map::insert keeps an existing key)
+   and edge by edge (ct_digraph::add_edge skips an edge that is already there) *)
+Definition dag_nodes (t : nid) : list nid := dedup nid_eqb (subterms t).
+Definition dag_edges (t : nid) : list (nid * nid) := dedup edge_eqb (all_edges t).
+Definition operands_of (t : nid) : list nid := match t with LeafId _ => [] | OpId _ args => args end.
+Definition in_edges (p : nid) (es : list (nid * nid)) : list nid :=
+  map fst (filter (fun e => nid_eqb (snd e) p) es).
